@@ -1,6 +1,8 @@
 import Driver.Util
-import SaModel.Data.SVal
-/- wire form of SVal (one object per serde call; see harness/src/sval.rs) -/
+import SaModel.Data.SValTyped
+/- wire form of SVal (one object per serde call; see harness/src/sval.rs).  `svalOfJson` refuses literals outside the width
+of their call (`SVal.typed`, Data/SValTyped.lean): every value handed to the model satisfies the typing invariant of
+`SVal` — `svalOfJson_typed` -/
 namespace Driver
 open Lean SaModel
 
@@ -9,20 +11,20 @@ def intTyOfStr : String → Option IntTy
   | "u8" => some .u8 | "u16" => some .u16 | "u32" => some .u32 | "u64" => some .u64
   | _ => none
 
-partial def svalOfJson (j : Json) : Except String SVal := do
+partial def svalOfJsonRaw (j : Json) : Except String SVal := do
   let k ← getStr j "k"
   let items (key : String) : Except String SVals := do
-    pure (SVals.ofList (← (← getArr j key).toList.mapM svalOfJson))
+    pure (SVals.ofList (← (← getArr j key).toList.mapM svalOfJsonRaw))
   let fields : Except String SFields := do
     let fs ← (← getArr j "f").toList.mapM fun e => do
       match (← e.getArr?).toList with
-      | [key, al, v] => pure ((← key.getStr?), (← al.getNat?), (← svalOfJson v))
+      | [key, al, v] => pure ((← key.getStr?), (← al.getNat?), (← svalOfJsonRaw v))
       | _ => throw "bad struct field"
     pure (SFields.ofList fs)
   match k with
   | "none" => pure .none
   | "unit" => pure .unit
-  | "some" => pure (.some (← svalOfJson (← getObj j "v")))
+  | "some" => pure (.some (← svalOfJsonRaw (← getObj j "v")))
   | "bool" => pure (.bool (← getBool j "v"))
   | "f32" => pure (.f32 (← getBigInt j "bits").toNat)
   | "f64" => pure (.f64 (← getBigInt j "bits").toNat)
@@ -32,28 +34,48 @@ partial def svalOfJson (j : Json) : Except String SVal := do
   | "seq" => pure (.seq (← items "v"))
   | "tuple" => pure (.tuple (← items "v"))
   | "tuple_struct" => pure (.tupleStruct (← getStr j "n") (← items "v"))
-  | "newtype_struct" => pure (.newtypeStruct (← getStr j "n") (← svalOfJson (← getObj j "v")))
+  | "newtype_struct" => pure (.newtypeStruct (← getStr j "n") (← svalOfJsonRaw (← getObj j "v")))
   | "unit_struct" => pure (.unitStruct (← getStr j "n"))
   | "struct" => pure (.record (← getStr j "n") (← fields))
   | "map" =>
     let es ← (← getArr j "e").toList.mapM fun e => do
       match (← e.getArr?).toList with
-      | [a, b] => pure ((← svalOfJson a), (← svalOfJson b))
+      | [a, b] => pure ((← svalOfJsonRaw a), (← svalOfJsonRaw b))
       | _ => throw "bad map entry"
     pure (.map (SEntries.ofList es))
   | "map_raw" =>
     let ops ← (← getArr j "ops").toList.mapM fun e => do
       match e.getObjVal? "key" with
-      | .ok kk => pure (Sum.inl (← svalOfJson kk))
-      | .error _ => pure (Sum.inr (← svalOfJson (← getObj e "val")))
+      | .ok kk => pure (Sum.inl (← svalOfJsonRaw kk))
+      | .error _ => pure (Sum.inr (← svalOfJsonRaw (← getObj e "val")))
     pure (.mapRaw (ops.foldr (fun o acc => match o with | .inl kk => .key kk acc | .inr v => .value v acc) .nil))
   | "unit_variant" => pure (.unitVariant (← getStr j "n") (← getNat j "i") (← getStr j "vn"))
-  | "newtype_variant" => pure (.newtypeVariant (← getStr j "n") (← getNat j "i") (← getStr j "vn") (← svalOfJson (← getObj j "v")))
+  | "newtype_variant" => pure (.newtypeVariant (← getStr j "n") (← getNat j "i") (← getStr j "vn") (← svalOfJsonRaw (← getObj j "v")))
   | "tuple_variant" => pure (.tupleVariant (← getStr j "n") (← getNat j "i") (← getStr j "vn") (← items "v"))
   | "struct_variant" => pure (.structVariant (← getStr j "n") (← getNat j "i") (← getStr j "vn") (← fields))
   | _ =>
     match intTyOfStr k with
     | some t => pure (.int t (← getBigInt j "v"))
     | none => throw s!"unknown serde kind {k}"
+
+/-- the wire decoder: the structural decoder followed by the typing check (an `i8` literal outside −128…127, a float bit
+pattern wider than its type, a `char` that is not a Unicode scalar value, a variant index beyond `u32` are refused:
+`harness/src/sval.rs` could not have issued such a call) -/
+def svalOfJson (j : Json) : Except String SVal := do
+  let x ← svalOfJsonRaw j
+  if x.typed then pure x else throw s!"ill-typed serde literal in a {x.kind} value"
+
+/-- every value the driver hands to the model satisfies the typing invariant of `SVal` (hence `SValOK`, the row
+hypothesis of `C03_wf`: `Lemmas.C03.typed_SValOK`) -/
+theorem svalOfJson_typed (j : Json) (x : SVal) (h : svalOfJson j = .ok x) : x.typed = true := by
+  unfold svalOfJson at h
+  cases hr : svalOfJsonRaw j with
+  | error e => rw [hr] at h; cases h
+  | ok y =>
+    rw [hr] at h
+    simp only [bind, Except.bind] at h
+    split at h
+    · rename_i ht; cases h; exact ht
+    · cases h
 
 end Driver
